@@ -372,7 +372,9 @@ func storeDomain(lines []string) []string {
 			if strings.HasPrefix(f[2], "-") {
 				limit = -limit
 			}
-			evs, next, err := sc.cur.st.Read(ctx, from, limit)
+			octx, ocancel := context.WithCancel(ctx) // every operation gets its own context, ended on return
+			evs, next, err := sc.cur.st.Read(octx, from, limit)
+			ocancel()
 			if err != nil {
 				out = append(out, "read err")
 				continue
@@ -390,7 +392,10 @@ func storeDomain(lines []string) []string {
 				out = append(out, "save skip")
 				continue
 			}
-			if err := sc.cur.sub.SaveOffset(ctx, f[1], off); err != nil {
+			octx, ocancel := context.WithCancel(ctx)
+			err := sc.cur.sub.SaveOffset(octx, f[1], off)
+			ocancel()
+			if err != nil {
 				out = append(out, "save err")
 			} else {
 				out = append(out, "save ok")
@@ -400,7 +405,9 @@ func storeDomain(lines []string) []string {
 				out = append(out, "load unsupported")
 				continue
 			}
-			off, err := sc.cur.sub.LoadOffset(ctx, f[1])
+			octx, ocancel := context.WithCancel(ctx)
+			off, err := sc.cur.sub.LoadOffset(octx, f[1])
+			ocancel()
 			if err != nil {
 				out = append(out, "load err")
 			} else {
